@@ -502,6 +502,16 @@ func (in *inst) rewriteGo(st *ast.GoStmt) []ast.Stmt {
 	return []ast.Stmt{&ast.BlockStmt{List: append(pre, stmt(goCall))}}
 }
 
+// timeImportName: the name under which the file imports package time
+func timeImportName(f *ast.File) string {
+	for _, imp := range f.Imports {
+		if imp.Path.Value == `"time"` && imp.Name != nil {
+			return imp.Name.Name
+		}
+	}
+	return "time"
+}
+
 func exprString(e ast.Expr) string {
 	switch v := e.(type) {
 	case *ast.Ident:
@@ -559,6 +569,40 @@ func main() {
 				}
 				return true
 			})
+			// time behind a seam: timers, tickers and sleeps of the instrumented package become the explorer's
+			timeUsed, timeRewritten := false, false
+			astutil.Apply(f, nil, func(c *astutil.Cursor) bool {
+				sel, ok := c.Node().(*ast.SelectorExpr)
+				if !ok {
+					return true
+				}
+				id, ok := sel.X.(*ast.Ident)
+				if !ok {
+					return true
+				}
+				pn, ok := p.TypesInfo.Uses[id].(*types.PkgName)
+				if !ok || pn.Imported().Path() != "time" {
+					return true
+				}
+				switch sel.Sel.Name {
+				case "NewTicker", "NewTimer", "After", "Tick", "Sleep", "Ticker", "Timer":
+					name := sel.Sel.Name
+					if name == "Tick" {
+						name = "TickChan"
+					}
+					c.Replace(&ast.SelectorExpr{X: ast.NewIdent("vsrt"), Sel: ast.NewIdent(name)})
+					timeRewritten = true
+				case "AfterFunc":
+					fail(in, sel.Pos(), "time.AfterFunc starts a goroutine the scheduler cannot own: not supported")
+				default:
+					timeUsed = true
+				}
+				return true
+			})
+			if timeRewritten && !timeUsed {
+				// nothing else of package time is used any more: keep the import used
+				f.Decls = append(f.Decls, &ast.GenDecl{Tok: token.VAR, Specs: []ast.Spec{&ast.ValueSpec{Names: []*ast.Ident{ast.NewIdent("_")}, Values: []ast.Expr{&ast.SelectorExpr{X: ast.NewIdent(timeImportName(f)), Sel: ast.NewIdent("Now")}}}}})
+			}
 			for _, d := range f.Decls {
 				if fd, ok := d.(*ast.FuncDecl); ok && fd.Body != nil {
 					in.body(fd.Body)
